@@ -31,6 +31,9 @@ FILES = {
     "m.dict": "// two includes\n#include 'inc1'\nown 1; // c\n#include 'inc2'\nres \"$shared + 1\";\n",
     "inc1": "shared 10;\nonly1 'one';\n",
     "inc2": "// second\nshared 20;\nonly2 'two';\n",
+    # the same comment text and the same include twice on one level (the reader keeps each once)
+    "dup.dict": "// ----\na 1;\n// ----\nb 2;\nn { // ----\n x 1; // ----\n }\n",
+    "dup2.dict": "#include 'inc1'\nc 3;\n#include 'inc1'\n",
     "model.xml": "<model><item id='1'>a</item><item>b</item><sub><x>1</x><x>2</x></sub></model>",
 }
 
@@ -141,7 +144,8 @@ PROBES = [("read", ("a.dict", "abs"), {}), ("read", ("a.dict", "rel"), {"comment
           ("load", ("a.dict", "rel")), ("dump", "pd", D1),
           ("read", ("m.dict", "abs"), {}), ("read", ("m.dict", "rel"), {"comments": False}), ("parse", ("m.dict", "abs"), {}),
           ("write", "probe.xml", "w", {"000001_a": 1, "000002_a": {"000003_b": "x y"}, "c": [1, 2]}, "rel"),
-          ("parse", ("model.xml", "abs"), {"output": "xml"}), ("read", ("model.xml", "rel"), {})]
+          ("parse", ("model.xml", "abs"), {"output": "xml"}), ("read", ("model.xml", "rel"), {}),
+          ("read", ("dup.dict", "abs"), {}), ("parse", ("dup.dict", "rel"), {}), ("read", ("dup2.dict", "abs"), {}), ("load", ("dup.dict", "abs"))]
 
 
 def run_history(start: int, cwd: str, prefix: list, probe: tuple):
